@@ -11,6 +11,7 @@ import VlsModel.Gen.FnFilterC04
 import VlsModel.Model.Bolt3Filter
 import VlsModel.Lemmas.FnGen
 import VlsModel.Gen.FnTxParse
+import VlsModel.Gen.FnTxBalance
 /-
 C04 — `Bolt3.estimateFeerate` (the feerate the signer infers for a second-level HTLC transaction,
 `Model/Bolt3Htlc.lean`) proved equal to the body of `estimate_feerate_per_kw` that `translate/rs2lean.py`
@@ -1457,5 +1458,104 @@ theorem C04_fn_parse_offered_htlc_script_only (a : Bool) (is : List Instr) (r : 
     exact ⟨_, _, _, _, _, rfl, h_32, rfl⟩
 
 
+
+/-! ## Round 10 (b2): `CommitmentInfo2::claimable_balance` (tx.rs) translated (`Gen/FnTxBalance.lean`,
+`fn_targets/TxBalance.b2.json`; the generic `T: PreimageMap` is an opaque type with the declared external
+`T.has_preimage`) — both signing phases call it on the decoded / built commitment before validation. -/
+set_option linter.unusedSimpArgs false
+open Gen.FnTxBalance in
+/-- `claimable_balance` (called by both signing phases BEFORE validation): for an outbound channel, a commitment whose
+    outputs sum above the channel value is not refused but **panics** (`expect("channel_value should be >= total_value")`)
+    — the observation recorded in notes/C04.md, now a theorem about the generated body. -/
+theorem C04_fn_claimable_balance_panics_above_channel_value {PH T : Type} (hp : T → PH → Bool)
+    (ci : CommitmentInfo2 PH) (pm : T) (cv tv : Nat)
+    (ht : ci.total_value = .ok tv) (hlt : cv < tv) :
+    ci.claimable_balance hp pm true cv = .error .panic := by
+  simp [CommitmentInfo2.claimable_balance, ht, Rs.ucheckedSub, Rs.unwrap, bind, Except.bind, Rs.panic, Nat.not_le.mpr hlt]
+
+open Gen.FnTxBalance in
+/-- … and the sum overflowing `u64` is an overflow panic of `total_value` itself (debug build) -/
+theorem C04_fn_claimable_balance_total_overflow {PH T : Type} (hp : T → PH → Bool)
+    (ci : CommitmentInfo2 PH) (pm : T) (cv : Nat) (e : Rs.Fail)
+    (ht : ci.total_value = .error e) :
+    ci.claimable_balance hp pm true cv = .error e := by
+  simp [CommitmentInfo2.claimable_balance, ht, bind, Except.bind]
+
+open Gen.FnTxBalance in
+/-- inbound channel, no HTLCs: the holder's main output (which side it is depends on the broadcaster) -/
+theorem C04_fn_claimable_balance_no_htlcs {PH T : Type} (hp : T → PH → Bool) (pm : T) (cb : Bool) (a b cv : Nat) :
+    (CommitmentInfo2.mk cb a b [] [] : CommitmentInfo2 PH).claimable_balance hp pm false cv
+      = .ok (if cb then a else b) := by
+  cases cb <;> simp [CommitmentInfo2.claimable_balance, CommitmentInfo2.value_to_parties, bind, Except.bind, pure, Except.pure]
+
+open Gen.FnTxBalance in
+/-- outbound channel, no HTLCs, outputs within the channel value: main output + the fee (`channel_value - total`) -/
+theorem C04_fn_claimable_balance_outbound_no_htlcs {PH T : Type} (hp : T → PH → Bool) (pm : T) (cb : Bool) (a b cv : Nat)
+    (hab : a + b ≤ cv) (hcv : cv ≤ Rs.U64_MAX) :
+    (CommitmentInfo2.mk cb a b [] [] : CommitmentInfo2 PH).claimable_balance hp pm true cv
+      = .ok ((if cb then a else b) + (cv - (b + a))) := by
+  have h1 : b + a ≤ Rs.U64_MAX := by omega
+  have h2 : b + a ≤ cv := by omega
+  cases cb <;>
+    simp [CommitmentInfo2.claimable_balance, CommitmentInfo2.value_to_parties, CommitmentInfo2.total_value, Rs.uadd, Rs.usum,
+      Rs.ucheckedSub, Rs.ucheckedAdd, Rs.unwrap, bind, Except.bind, pure, Except.pure, h1, h2]
+  · have h3 : b + (cv - (b + a)) ≤ Rs.U64_MAX := by omega
+    simp [h3]
+  · have h3 : a + (cv - (b + a)) ≤ Rs.U64_MAX := by omega
+    simp [h3]
+
+/-- the value `claimable_balance` adds for a list of HTLCs selected by `sel` -/
+def selSum {PH : Type} (sel : PH → Bool) (l : List (Gen.FnTxBalance.HTLCInfo2 PH)) : Nat :=
+  ((l.filter (fun h => sel h.payment_hash)).map (·.value_sat)).sum
+
+theorem foldl_sel {PH : Type} (sel : PH → Bool) (f : Nat → Gen.FnTxBalance.HTLCInfo2 PH → Rs.M Nat)
+    (hf : ∀ b o, f b o = if sel o.payment_hash then (if b + o.value_sat ≤ Rs.U64_MAX then .ok (b + o.value_sat) else .error .panic) else .ok b)
+    (l : List (Gen.FnTxBalance.HTLCInfo2 PH)) (bal : Nat)
+    (h : bal + selSum sel l ≤ Rs.U64_MAX) :
+    List.foldlM f bal l = .ok (bal + selSum sel l) := by
+  induction l generalizing bal with
+  | nil => simp [selSum, pure, Except.pure]
+  | cons x xs ih =>
+    simp only [List.foldlM_cons, hf]
+    by_cases hs : sel x.payment_hash
+    · have e : selSum sel (x :: xs) = x.value_sat + selSum sel xs := by simp [selSum, hs]
+      rw [e] at h ⊢
+      have h1 : bal + x.value_sat ≤ Rs.U64_MAX := by omega
+      simp only [hs, if_true, h1, bind, Except.bind]
+      rw [ih (bal + x.value_sat) (by omega)]; congr 1; omega
+    · have e : selSum sel (x :: xs) = selSum sel xs := by simp [selSum, hs]
+      rw [e] at h ⊢
+      simp only [hs, bind, Except.bind]
+      exact ih bal h
+
+open Gen.FnTxBalance in
+/-- **closed form** (inbound channel, the case of a counterparty-funded channel): the holder's main output + the HTLCs the
+    holder offers whose preimage is unknown + the HTLCs offered to the holder whose preimage is known; which list is
+    "offered by the holder" flips with the broadcaster.  No panic as long as the sum fits `u64`. -/
+theorem C04_fn_claimable_balance {PH T : Type} (hp : T → PH → Bool) (ci : CommitmentInfo2 PH) (pm : T) (cv : Nat)
+    (hfit : ci.value_to_parties.1
+      + selSum (fun h => !hp pm h) (if ci.is_counterparty_broadcaster then ci.received_htlcs else ci.offered_htlcs)
+      + selSum (fun h => hp pm h) (if ci.is_counterparty_broadcaster then ci.offered_htlcs else ci.received_htlcs) ≤ Rs.U64_MAX) :
+    ci.claimable_balance hp pm false cv = .ok (ci.value_to_parties.1
+      + selSum (fun h => !hp pm h) (if ci.is_counterparty_broadcaster then ci.received_htlcs else ci.offered_htlcs)
+      + selSum (fun h => hp pm h) (if ci.is_counterparty_broadcaster then ci.offered_htlcs else ci.received_htlcs)) := by
+  unfold CommitmentInfo2.claimable_balance
+  cases hb : ci.is_counterparty_broadcaster <;> simp only [hb, if_true, if_false, Bool.false_eq_true] at hfit ⊢
+  all_goals
+    simp only [Rs.pure_eq, Rs.bind_ok]
+    rw [foldl_sel (fun h => !hp pm h) _ (by
+      intro b o; by_cases hle : b + o.value_sat ≤ Rs.U64_MAX <;> cases hh : hp pm o.payment_hash <;>
+        simp [hh, hle, Rs.ucheckedAdd, Rs.unwrap, Rs.panic, bind, Except.bind, pure, Except.pure]) _ ci.value_to_parties.1 (by omega)]
+    simp only [Rs.pure_eq, Rs.bind_ok]
+    rw [foldl_sel (fun h => hp pm h) _ (by
+      intro b o; by_cases hle : b + o.value_sat ≤ Rs.U64_MAX <;> cases hh : hp pm o.payment_hash <;>
+        simp [hh, hle, Rs.ucheckedAdd, Rs.unwrap, Rs.panic, bind, Except.bind, pure, Except.pure]) _ _ hfit]
+
+/-- non-vacuity: holder main output 200, offers 10 (preimage 1 known) and 20 (unknown), is offered 5 (known) and 7 (unknown) -/
+example : (Gen.FnTxBalance.CommitmentInfo2.mk false 100 200 [⟨10, 1⟩, ⟨20, 2⟩] [⟨5, 1⟩, ⟨7, 3⟩] :
+      Gen.FnTxBalance.CommitmentInfo2 Nat).claimable_balance (fun (_ : Unit) h => h == 1) () false 1000 = .ok 225 := by rfl
+/-- … and the same outputs on an outbound channel of 300 sat (< 342 = total): panic -/
+example : (Gen.FnTxBalance.CommitmentInfo2.mk false 100 200 [⟨10, 1⟩, ⟨20, 2⟩] [⟨5, 1⟩, ⟨7, 3⟩] :
+      Gen.FnTxBalance.CommitmentInfo2 Nat).claimable_balance (fun (_ : Unit) h => h == 1) () true 300 = .error .panic := by rfl
 
 end VlsModel.Props.C04Fn
